@@ -94,6 +94,21 @@ def check_small(net, spec, res):
     bn = bn_of(net).infer_valid_graph()
     pn = network_to_petrinet(bn)
     trs = transitions_of(pn)
+    # (a0) the documented module option DEBUG (logging to stdout) must not change the encoding (wave-5 change C10-w5-2)
+    import contextlib
+    import io
+    import biobalm.petri_net_translation as pnt
+    old_debug = pnt.DEBUG
+    try:
+        pnt.DEBUG = True
+        with contextlib.redirect_stdout(io.StringIO()):
+            pn_dbg = network_to_petrinet(bn)
+    finally:
+        pnt.DEBUG = old_debug
+    res["evals"] += 1
+    if sorted(map(str, pn_dbg.nodes(data=True))) != sorted(map(str, pn.nodes(data=True))) or sorted(pn_dbg.edges()) != sorted(pn.edges()):
+        rep("petri-net-depends-on-debug-flag", ["pn-debug"], f"{pn_dbg.number_of_nodes()} nodes / {pn_dbg.number_of_edges()} edges with DEBUG=True, "
+            f"{pn.number_of_nodes()} / {pn.number_of_edges()} without")
     # (a) enabledness on every state
     for s in range(net.N):
         d = net.dict_of(s)
